@@ -475,13 +475,8 @@ func c11HpkeAndSharingAccessors() []*c11Acc {
 			func(o interface{}) []byte { return c11MustBytes(o.(kem.PublicKey).MarshalBinary()) },
 			[]c11Mut{{"MarshalBinary+scribble", func(o interface{}) { b, _ := o.(kem.PublicKey).MarshalBinary(); c11Scr(b) }}}},
 	)
-	// secret sharing and polynomials
+	// secret sharing and polynomials, for every threshold / degree from the boundary (t = 0: constant polynomial) upwards
 	g := group.P256
-	secret := g.NewScalar().SetUint64(1234567)
-	mk := func() secretsharing.SecretSharing {
-		return secretsharing.New(verifmc.NewDetReader("c11-ss"), 2, secret)
-	}
-	ss := mk()
 	shareView := func(o interface{}) []byte {
 		var b []byte
 		for _, s := range o.([]secretsharing.Share) {
@@ -489,49 +484,90 @@ func c11HpkeAndSharingAccessors() []*c11Acc {
 		}
 		return b
 	}
-	coeffs := []group.Scalar{g.NewScalar().SetUint64(5), g.NewScalar().SetUint64(6), g.NewScalar().SetUint64(7)}
-	poly := polynomial.New(coeffs)
-	xs := []group.Scalar{g.NewScalar().SetUint64(1), g.NewScalar().SetUint64(2), g.NewScalar().SetUint64(3)}
-	ys := []group.Scalar{g.NewScalar().SetUint64(11), g.NewScalar().SetUint64(12), g.NewScalar().SetUint64(13)}
-	lag := polynomial.NewLagrangePolynomial(xs, ys)
 	x9 := g.NewScalar().SetUint64(9)
-	smut := []c11Mut{{"SetUint64(99)", func(o interface{}) { o.(group.Scalar).SetUint64(99) }}, {"Neg(self)", func(o interface{}) { s := o.(group.Scalar); s.Neg(s) }}}
-	out = append(out,
-		&c11Acc{"secretsharing", "Share(4)", func() interface{} { return ss.Share(4) }, shareView,
-			[]c11Mut{{"overwrite IDs and values", func(o interface{}) {
-				for _, s := range o.([]secretsharing.Share) {
-					s.ID.SetUint64(77)
-					s.Value.SetUint64(88)
-				}
-			}}}},
-		&c11Acc{"secretsharing", "ShareWithID(3)", func() interface{} { return []secretsharing.Share{ss.ShareWithID(g.NewScalar().SetUint64(3))} }, shareView,
-			[]c11Mut{{"overwrite ID and value", func(o interface{}) { s := o.([]secretsharing.Share)[0]; s.ID.SetUint64(77); s.Value.SetUint64(88) }}}},
-		&c11Acc{"secretsharing", "CommitSecret", func() interface{} { return ss.CommitSecret() },
-			func(o interface{}) []byte {
-				var b []byte
-				for _, e := range o.(secretsharing.SecretCommitment) {
-					b = c11Cat(b, c11ElemView(e))
-				}
-				return b
-			},
-			[]c11Mut{{"Neg every commitment", func(o interface{}) {
-				for _, e := range o.(secretsharing.SecretCommitment) {
-					e.Neg(e)
-				}
-			}}}},
-		&c11Acc{"secretsharing", "Recover(shares)", func() interface{} {
-			s, err := secretsharing.Recover(2, ss.Share(3))
-			if err != nil {
-				panic(err)
+	smut := []c11Mut{
+		{"SetUint64(99)", func(o interface{}) { o.(group.Scalar).SetUint64(99) }},
+		{"Neg(self)", func(o interface{}) { s := o.(group.Scalar); s.Neg(s) }},
+		{"Add(self,1)", func(o interface{}) { s := o.(group.Scalar); s.Add(s, g.NewScalar().SetUint64(1)) }},
+		{"UnmarshalBinary(7)", func(o interface{}) {
+			b, _ := g.NewScalar().SetUint64(7).MarshalBinary()
+			_ = o.(group.Scalar).UnmarshalBinary(b)
+		}},
+	}
+	shareMuts := []c11Mut{
+		{"overwrite IDs and values", func(o interface{}) {
+			for _, s := range o.([]secretsharing.Share) {
+				s.ID.SetUint64(77)
+				s.Value.SetUint64(88)
 			}
-			return s
-		}, c11ScalarView, smut},
-		&c11Acc{"polynomial", "Coefficient(1)", func() interface{} { return poly.Coefficient(1) }, c11ScalarView, smut},
-		&c11Acc{"polynomial", "Evaluate(9)", func() interface{} { return poly.Evaluate(x9) }, c11ScalarView, smut},
-		&c11Acc{"polynomial", "New(coeffs)[caller slice]", func() interface{} { return coeffs[1] }, c11ScalarView, nil},
-		&c11Acc{"polynomial", "Lagrange.Evaluate(9)", func() interface{} { return lag.Evaluate(x9) }, c11ScalarView, smut},
-		&c11Acc{"polynomial", "LagrangeBase(1,xs,9)", func() interface{} { return polynomial.LagrangeBase(1, xs, x9) }, c11ScalarView, smut},
-	)
+		}},
+		{"Add 1 to every value", func(o interface{}) {
+			for _, s := range o.([]secretsharing.Share) {
+				s.Value.Add(s.Value, g.NewScalar().SetUint64(1))
+			}
+		}},
+	}
+	for t := uint(0); t <= 2; t++ {
+		t := t
+		fam := fmt.Sprintf("secretsharing(t=%d)", t)
+		secret := g.NewScalar().SetUint64(1234567)
+		ss := secretsharing.New(verifmc.NewDetReader(fmt.Sprintf("c11-ss-%d", t)), t, secret)
+		out = append(out,
+			&c11Acc{fam, "Share(4)", func() interface{} { return ss.Share(4) }, shareView, shareMuts},
+			&c11Acc{fam, "ShareWithID(3)", func() interface{} { return []secretsharing.Share{ss.ShareWithID(g.NewScalar().SetUint64(3))} }, shareView, shareMuts},
+			&c11Acc{fam, "ShareWithID(5)", func() interface{} { return []secretsharing.Share{ss.ShareWithID(g.NewScalar().SetUint64(5))} }, shareView, shareMuts[:1]},
+			&c11Acc{fam, "CommitSecret", func() interface{} { return ss.CommitSecret() },
+				func(o interface{}) []byte {
+					var b []byte
+					for _, e := range o.(secretsharing.SecretCommitment) {
+						b = c11Cat(b, c11ElemView(e))
+					}
+					return b
+				},
+				[]c11Mut{{"Neg every commitment", func(o interface{}) {
+					for _, e := range o.(secretsharing.SecretCommitment) {
+						e.Neg(e)
+					}
+				}}}},
+			&c11Acc{fam, "Recover(shares)", func() interface{} {
+				s, err := secretsharing.Recover(t, ss.Share(t+2))
+				if err != nil {
+					panic(err)
+				}
+				return s
+			}, c11ScalarView, smut},
+			&c11Acc{fam, "secret (caller's scalar)", func() interface{} { return secret }, c11ScalarView, nil},
+		)
+	}
+	for deg := 0; deg <= 2; deg++ {
+		deg := deg
+		fam := fmt.Sprintf("polynomial(degree=%d)", deg)
+		coeffs := make([]group.Scalar, deg+1)
+		xs := make([]group.Scalar, deg+1)
+		ys := make([]group.Scalar, deg+1)
+		for i := range coeffs {
+			coeffs[i] = g.NewScalar().SetUint64(uint64(5 + i))
+			xs[i] = g.NewScalar().SetUint64(uint64(1 + i))
+			ys[i] = g.NewScalar().SetUint64(uint64(11 + i))
+		}
+		poly := polynomial.New(coeffs)
+		lag := polynomial.NewLagrangePolynomial(xs, ys)
+		out = append(out,
+			&c11Acc{fam, "Coefficient(0)", func() interface{} { return poly.Coefficient(0) }, c11ScalarView, smut},
+			&c11Acc{fam, fmt.Sprintf("Coefficient(%d)", deg), func() interface{} { return poly.Coefficient(uint(deg)) }, c11ScalarView, smut},
+			&c11Acc{fam, "Evaluate(9)", func() interface{} { return poly.Evaluate(x9) }, c11ScalarView, smut},
+			&c11Acc{fam, "Evaluate(0)", func() interface{} { return poly.Evaluate(g.NewScalar()) }, c11ScalarView, smut},
+			&c11Acc{fam, "New(coeffs)[caller's slice]", func() interface{} { return coeffs[0] }, c11ScalarView, nil},
+			&c11Acc{fam, "Lagrange.Evaluate(9)", func() interface{} { return lag.Evaluate(x9) }, c11ScalarView, smut},
+			&c11Acc{fam, "Lagrange.Evaluate(x0)", func() interface{} { return lag.Evaluate(xs[0]) }, c11ScalarView, smut},
+			&c11Acc{fam, "LagrangeBase(0,xs,9)", func() interface{} { return polynomial.LagrangeBase(0, xs, x9) }, c11ScalarView, smut},
+			&c11Acc{fam, "xs,ys (caller's slices)", func() interface{} { return []group.Scalar{xs[0], ys[0]} },
+				func(o interface{}) []byte {
+					v := o.([]group.Scalar)
+					return c11Cat(c11ScalarView(v[0]), c11ScalarView(v[1]))
+				}, nil},
+		)
+	}
 	return out
 }
 
